@@ -271,7 +271,7 @@ func (m *machine) useEval(t *rapid.T) {
 // one of the compiled programs (compile once, execute many).
 func (m *machine) compileProg(t *rapid.T) {
 	if m.full() || len(m.e.progs) >= 4 {
-		t.Skip("enough programs")
+		return // a step without action (a skip here adds to rapid's chance of finding no valid action)
 	}
 	e := m.e
 	var ok []int
@@ -281,7 +281,7 @@ func (m *machine) compileProg(t *rapid.T) {
 		}
 	}
 	if len(ok) == 0 {
-		t.Skip("nothing usable")
+		return
 	}
 	a := Action{Op: "compile"}
 	a.C = rapid.SampledFrom(ok).Draw(t, "callable")
@@ -306,7 +306,7 @@ func (m *machine) execProg(t *rapid.T) {
 		}
 	}
 	if len(ok) == 0 {
-		t.Skip("no program")
+		return
 	}
 	a := Action{Op: "exec", Route: "exec"}
 	if rapid.IntRange(0, 2).Draw(t, "ctx") == 0 {
